@@ -182,12 +182,12 @@ func genGraph(rng interface {
 				fr.Body = append(fr.Body, fmt.Sprintf("inc r%d", pick()))
 			case 3:
 				fr.Body = append(fr.Body, fmt.Sprintf("dec r%d", pick()))
-			case 4: // temporary in a low register name not yet used
-				t := rng.IntN(4)
+			case 4: // temporary in a low register name not yet used (holes in the register use are intended)
+				t := rng.IntN(6)
 				fr.Body = append(fr.Body, fmt.Sprintf("cpy r%d, r%d", t, pick()))
 				defined[t] = true
 			case 5:
-				t := rng.IntN(4)
+				t := rng.IntN(6)
 				fr.Body = append(fr.Body, fmt.Sprintf("rset r%d, %d", t, rng.IntN(200)))
 				defined[t] = true
 			case 6:
@@ -421,7 +421,7 @@ func main() {
 		os.Exit(run.Finish())
 	}
 
-	nGraphs, maxInst := 40, 5
+	nGraphs, maxInst := 120, 5
 	if tier == "thorough" {
 		nGraphs, maxInst = 500, 7
 	}
